@@ -202,7 +202,7 @@ def case_fermion(ctx, rng):
     tval = rng.choice([0.5, 1.0, -0.8])
     time = {k: tval for k in op.terms} if use_dict else tval
     opts = {"qubit_mapping": mapping, "up_then_down": rng.random() < 0.5, "n_spinorbitals": n_so, "n_electrons": 2}
-    control = rng.choice([None, 4])
+    control = rng.choice([None, 4, 0]) if False else rng.choice([None, 4])
     case = {"kind": "fermion", "terms": {str(k): v for k, v in op.terms.items()}, "mapping": opts, "steps": steps, "order": order,
             "time": tval, "dict_time": use_dict, "control": control}
     circ, phase = trotterize(op, time=time, n_trotter_steps=steps, trotter_order=order, mapping_options=opts, control=control, return_phase=True)
@@ -226,7 +226,7 @@ def case_fermion(ctx, rng):
 
 def run(ctx):
     rng = ctx.rng
-    controls = [None, None, 5, [5], [4, 5], [3, 4, 5], [0, 5]]
+    controls = [None, None, 5, [5], [4, 5], [3, 4, 5], [0, 5], 0, [0]]     # the bare integer 0 is falsy: a classic slip
     # (a) single words
     for i in range(ctx.n(160, 4000)):
         ctl = rng.choice(controls)
@@ -243,7 +243,7 @@ def run(ctx):
                             case_word(ctx, [[q, p] for q, p in zip(qs, ps)], gam, ctl, False)
     # (b) operators
     for i in range(ctx.n(120, 3000)):
-        ctl = rng.choice([None, None, 4, [4], [3, 4], [0, 4]])
+        ctl = rng.choice([None, None, 4, [4], [3, 4], [0, 4], 0, 0, [0]])
         forb = set() if ctl is None else set([ctl] if isinstance(ctl, int) else ctl)
         terms, seen = [], set()
         for _ in range(rng.randint(1, 5)):
